@@ -46,7 +46,9 @@ func (t *Tx) EthTx() *ethtypes.Transaction {
 	if t.Dynamic {
 		return ethtypes.NewTx(&ethtypes.DynamicFeeTx{ChainID: big.NewInt(90909), Nonce: t.Nonce, GasTipCap: t.Tip, GasFeeCap: t.Cap, Gas: t.GasLimit, To: to, Value: t.Value, Data: t.Data})
 	}
-	return ethtypes.NewTx(&ethtypes.LegacyTx{Nonce: t.Nonce, GasPrice: t.GasPrice, Gas: t.GasLimit, To: to, Value: t.Value, Data: t.Data})
+	// EIP-155 protected for chain id 90909: V = 35 + 2*chainId (R, S are placeholders: recovery is modelled)
+	return ethtypes.NewTx(&ethtypes.LegacyTx{Nonce: t.Nonce, GasPrice: t.GasPrice, Gas: t.GasLimit, To: to, Value: t.Value, Data: t.Data,
+		V: big.NewInt(35 + 2*90909), R: big.NewInt(1), S: big.NewInt(1)})
 }
 
 var txCounter int
@@ -102,7 +104,13 @@ func (w *World) DeliverLane(t *Tx) *Result {
 		})
 	}
 	var anteErr error
-	antePanic := verif.Try(func() { _, anteErr = chain(anteCtx, tx, false) })
+	antePanic := verif.Try(func() {
+		// DLValidateBasicDecorator: stateless validation of the embedded transaction
+		if anteErr = msg.ValidateBasic(); anteErr != nil {
+			return
+		}
+		_, anteErr = chain(anteCtx, tx, false)
+	})
 	if antePanic || anteErr != nil {
 		if anteErr != nil {
 			LastErr = "ante: " + anteErr.Error()
